@@ -22,7 +22,7 @@ def codes(base):
     return {c: i for i, c in enumerate(PA)}, PA
 
 
-def plant(rng, L, alpha, ngaps, maxgap, psub, overhang, gapsides, minsep=12):
+def plant(rng, L, alpha, ngaps, maxgap, psub, overhang, gapsides, minsep=12, near_end=False):
     core = [rng.choice(alpha) for _ in range(L)]
     cols = []
     gp = []
@@ -45,6 +45,17 @@ def plant(rng, L, alpha, ngaps, maxgap, psub, overhang, gapsides, minsep=12):
                 cols.append((c2, None) if side == 0 else (None, c2))
         ch2 = ch if rng.random() > psub else rng.choice([c for c in alpha if c != ch])
         cols.append((ch, ch2))
+    if near_end and len(cols) > 8:
+        # an indel 1..3 matched columns away from an end of the alignment
+        k = rng.randint(1, maxgap)
+        side = rng.choice(gapsides)
+        c = rng.randint(1, 3)
+        ins = [((rng.choice(alpha), None) if side == 0 else (None, rng.choice(alpha))) for _ in range(k)]
+        if rng.random() < 0.5:
+            cols = cols[:-c] + ins + cols[-c:]
+        else:
+            cols = cols[:c] + ins + cols[c:]
+        return cols
     for end in (0, 1):
         k = rng.randint(0, overhang)
         side = rng.choice(gapsides)
@@ -75,7 +86,7 @@ def oracle_spec(cols, flip, par, cmap, ns):
 
 def run_case(ck, paths, tools, idx):
     rng = ck.rng.__class__(ck.seed * 236887691 + idx)
-    kind = rng.choice(["dna", "rna", "protein", "divergent", "internal", "flat_u", "gpe_eq_tgpe_u", "user"])
+    kind = rng.choice(["dna", "rna", "protein", "divergent", "internal", "flat_u", "gpe_eq_tgpe_u", "user", "zero_tgpe_u"])
     if kind in ("dna", "rna", "protein", "divergent", "internal"):
         base = kind
         par = dict(GOLD[kind])
@@ -83,7 +94,14 @@ def run_case(ck, paths, tools, idx):
     else:
         base = rng.choice(["dna", "protein", "divergent"])
         par = dict(GOLD[base])
-        if kind == "flat_u":
+        if kind == "zero_tgpe_u":
+            # an explicit penalty of exactly 0 where the type's default is not 0 (free terminal overhangs)
+            base = rng.choice(["rna", "internal", "protein", "divergent"])
+            par = dict(GOLD[base])
+            gpo, gpe, tgpe = None, None, 0.0
+            par.update(tgpe=0.0)
+            word = base
+        elif kind == "flat_u":
             g = rng.choice([3.0, 6.0, 10.0]) * (10 if base == "divergent" else 1)
             gpo = gpe = tgpe = g
         elif kind == "gpe_eq_tgpe_u":
@@ -93,12 +111,17 @@ def run_case(ck, paths, tools, idx):
             gpo = rng.choice([4.0, 9.0, 20.0]) * (10 if base == "divergent" else 1)
             gpe = rng.choice([1.0, 2.5, 6.0]) * (10 if base == "divergent" else 1)
             tgpe = rng.choice([0.0, 0.5, 2.0]) * (10 if base == "divergent" else 1)
-        par.update(gpo=gpo, gpe=gpe, tgpe=tgpe)
+        if kind != "zero_tgpe_u":
+            par.update(gpo=gpo, gpe=gpe, tgpe=tgpe)
         word = base
     cmap, alpha = codes(base)
     Ln = rng.choice([15, 40, 100, 250, 480, 495, 505, 520, 900, 1150])
     focus = rng.random() < 0.3
-    if focus:
+    near = (not focus) and rng.random() < 0.2
+    if near:
+        cols = plant(rng, rng.choice([30, 45, 100, 505, 530]), alpha, rng.choice([0, 1]), rng.choice([1, 4, 6, 9]), rng.choice([0, 0.05]), 0, rng.choice([[0], [1]]), 12, True)
+        ck.count("generated_indel_next_to_an_end")
+    elif focus:
         # short gaps close to each other, to be aligned between groups of unequal size (gap penalties are scaled by group size)
         cols = plant(rng, rng.choice([40, 60, 100, 250, 505]), alpha, rng.choice([1, 2, 3]), rng.choice([1, 1, 2]), rng.choice([0, 0.05]),
                      rng.choice([0, 0, 5]), rng.choice([[0], [1]]), rng.choice([3, 3, 3, 4, 6]))
@@ -161,6 +184,8 @@ def run_case(ck, paths, tools, idx):
     ck.count("certified_%s" % pairing)
     if has_indel:
         ck.count("certified_with_indel_or_overhang")
+    if near:
+        ck.count("certified_indel_next_to_an_end")
     if focus:
         ck.count("certified_close_gaps_unequal_groups")
     if max(len(x), len(y)) >= 500:
